@@ -1,7 +1,7 @@
 (* Lmmm/Spec.v — definitions that appear in the statements of the Lmmm-based properties
    (C01, C02, C03, C05, C06, C07).  Definitions only, no lemmas. *)
 From Coq Require Import List ZArith NArith Bool.
-From Mimium Require Import StateTree.Model Lmmm.Syntax Lmmm.Ref Lmmm.Compile Lmmm.Machine Lmmm.Wf.
+From Mimium Require Import StateTree.Model Lmmm.Syntax Lmmm.Ref Lmmm.Compile Lmmm.Machine Lmmm.Wf Lmmm.HotSwap.
 Import ListNotations.
 
 (* leaves of a skeleton with their flat offsets, DFS order *)
@@ -32,19 +32,9 @@ Definition outs_of (r : list (option (list Z * list Z * N * list (N * N * N)))) 
 Definition rows_ok (p : program) (rows : list (list Z)) : Prop :=
   Forall (fun r => length r = length (p_inputs p)) rows.
 
-(* machine state after running the rows (None as soon as one sample faults) *)
-Fixpoint final_state (d : disc) (p : program) (cp : cprog) (t0 : Z) (rows : list (list Z)) (m : mstate)
-  : option mstate :=
-  match rows with
-  | [] => Some m
-  | i :: rest =>
-      match mach_step d p cp t0 i m with
-      | Some (_, m') => final_state d p cp (t0 + 1)%Z rest m'
-      | None => None
-      end
-  end.
+(* `final_state` (machine state after running the rows) and `hot_swap` live in the model file Lmmm/HotSwap.v *)
 
-(* hot swap onto the same program: plan = None, the state words are cloned into a fresh machine *)
+(* what a hot swap onto a program with the same skeleton produces: the state words cloned into a fresh machine *)
 Definition swap_same (m : mstate) : mstate := mkM (m_words m) 0%N [].
 
 (* the initial machine of each discipline (the WASM runtime allocates the storage up front) *)
@@ -54,8 +44,9 @@ Definition init_state (d : disc) (cp : cprog) : mstate :=
   | WasmD => mkM (repeat 0%Z (N.to_nat (size (published_skeleton cp)))) 0%N []
   end.
 
-(* k consecutive hot swaps of the same program: run the segments one after the other, swapping in
-   between; `now` keeps counting.  Returns the outputs of all segments, None if a segment faults. *)
+(* k consecutive hot swaps of the same program: run the segments one after the other, hot-swapping the
+   (unchanged) program in between; `now` keeps counting.  Returns the outputs of all segments, None if a
+   segment or a swap faults. *)
 Fixpoint run_segments (d : disc) (p : program) (cp : cprog) (t0 : Z) (segs : list (list (list Z)))
          (m : mstate) : option (list (option (list Z))) :=
   match segs with
@@ -63,8 +54,12 @@ Fixpoint run_segments (d : disc) (p : program) (cp : cprog) (t0 : Z) (segs : lis
   | rows :: rest =>
       match final_state d p cp t0 rows m with
       | Some m' =>
-          match run_segments d p cp (t0 + Z.of_nat (length rows))%Z rest (swap_same m') with
-          | Some os => Some (outs_of (mach_run d p cp t0 rows m) ++ os)
+          match hot_swap cp cp m' with
+          | Some m'' =>
+              match run_segments d p cp (t0 + Z.of_nat (length rows))%Z rest m'' with
+              | Some os => Some (outs_of (mach_run d p cp t0 rows m) ++ os)
+              | None => None
+              end
           | None => None
           end
       | None => None
@@ -136,12 +131,29 @@ Definition words_eq_on (w1 : list Z) (off1 : N) (w2 : list Z) (off2 : N) (sz : N
 Definition words_zero_on (w : list Z) (off sz : N) : Prop :=
   forall k, (k < sz)%N -> nth (N.to_nat (off + k)) w 0%Z = 0%Z.
 
-(* a hot swap: when the new program does not compile the swap does not happen; otherwise the storage is
-   migrated by `migrate old_skeleton new_skeleton old_words` into a fresh machine *)
-Definition hot_swap (migrate : skel -> skel -> list Z -> list Z) (p_new : program) (cur : cprog * mstate)
-  : cprog * mstate :=
+(* the migration plan from skeleton o to skeleton n carries the words [off1, off1+sz) of the old storage
+   onto [off2, off2+sz) of the new one: one patch covers the destination range and reads it from the
+   source range (identical skeletons: plan = None, the storage is cloned, so the ranges must coincide) *)
+Definition voice_carried (o n : skel) (off1 off2 sz : N) : Prop :=
+  match plan o n with
+  | None => off1 = off2
+  | Some (_, ps) =>
+      exists pt, In pt ps /\ (p_dst pt <= off2)%N /\ (off2 + sz <= p_dst pt + p_sz pt)%N /\
+                 (p_src pt + (off2 - p_dst pt))%N = off1
+  end.
+
+(* no patch of the plan writes into [off2, off2+sz) of the new storage (it stays zero) *)
+Definition voice_unwritten (o n : skel) (off2 sz : N) : Prop :=
+  match plan o n with
+  | None => False
+  | Some (_, ps) =>
+      forall pt k, In pt ps -> (k < sz)%N -> ~ (p_dst pt <= off2 + k < p_dst pt + p_sz pt)%N
+  end.
+
+(* an edit of the running program: if the new source does not compile (or the migration faults) the swap
+   does not happen and the runtime keeps (program, state) *)
+Definition try_swap (p_new : program) (cur : cprog * mstate) : cprog * mstate :=
   match compile p_new with
+  | Some cp2 => match hot_swap (fst cur) cp2 (snd cur) with Some m2 => (cp2, m2) | None => cur end
   | None => cur
-  | Some cp2 =>
-      (cp2, mkM (migrate (published_skeleton (fst cur)) (published_skeleton cp2) (m_words (snd cur))) 0%N [])
   end.
